@@ -31,9 +31,9 @@ MatrixXd bfl::directional_statistics::directional_sub(const Ref<const MatrixXd>&
 
 VectorXd bfl::directional_statistics::directional_mean(const Ref<const MatrixXd>& a, const Ref<const VectorXd>& w)
 {
-    /* If one column only is provided, it is returned as is. */
+    /* If one column only is provided, it is returned wrapped to (-pi, pi]. */
     if (a.cols() == 1)
-        return a.col(0);
+        return directional_add(a.col(0), VectorXd::Zero(a.rows()));
 
     /* For each row i of the matrix a,
        the method computes the sum of exponentials sum(w_{k} * e^(j*a_{ik})) where j is the imaginary unit
